@@ -491,6 +491,11 @@ class ModuleVistor(NodeVisitor):
         _localNameToFullName = self.builder.current._localNameToFullName_map
         for al in node.names:
             targetname, asname = al.name, al.asname
+            # Python executes the imported module, and the packages above it, when the
+            # statement runs: analyse them now, like 'from module import name' does.
+            parts = targetname.split('.')
+            for i in range(1, len(parts) + 1):
+                self.system.getProcessedModule('.'.join(parts[:i]))
             if asname is None:
                 # we're keeping track of all defined names
                 asname = targetname = targetname.split('.')[0]
